@@ -1,9 +1,190 @@
 import LinfaSpec.Model.Proto
+import LinfaSpec.Model.Scalar
+import LinfaSpec.Model.NN
 
+/-!
+C07 driver.  Requests (all self-contained):
+
+`knn   ty= kind= metric= p= ncols= leaf= pts= q= k= [script=]`
+`range ty= kind= metric= p= ncols= leaf= pts= q= r= [script=]`
+`tree  ty= metric= p= ncols= leaf= pts= script=`
+
+`ty` f64|f32 (floats travel as 16 resp. 8 hex digits), `kind` linear|kd|ball, `metric` l1|l2|linf|lp
+(`p` = exponent of lp), `pts` list2, `q` list, `script` = the splits the real ball tree took, one
+entry per branch `centerpos;left positions;right positions` joined by `|` (the model's `split`
+parameter; `tree` checks every entry against the specification of `partition`).
+
+Responses: `err <Kind>` | `ok n=<count> d=<rdist of the returned points in order> strict=<sorted
+positions strictly nearer than the last returned>` | `ok pos=<sorted positions>` | tree dump.
+Ties may be broken arbitrarily by the property, so of a k-nearest answer only the distance
+sequence and the positions below the k-th distance are canonical.
+-/
 namespace LinfaSpec.Drv.C07
-open LinfaSpec.Proto
+open LinfaSpec.Proto LinfaSpec.NN LinfaSpec
 
-/-- stub: replaced when the property's model lands -/
-def handle (_toks : List String) : String := "bad-op"
+structure Sc (α : Type) where
+  parse : String → Option α
+  shw : α → String
+  wide : α → Float
+
+def scF64 : Sc Float := ⟨parseF64, showF64, id⟩
+def scF32 : Sc Float32 := ⟨parseF32, showF32, Float32.toFloat⟩
+
+section
+variable {α : Type} [Add α] [Sub α] [Mul α] [Div α] [Neg α] [LT α] [DecidableLT α] [LE α]
+  [DecidableLE α] [OfNat α 0] [OfNat α 1] [NatCast α] [Transc α] [PowF α]
+
+def metricOf (name : String) (p : α) : Option (Metric (List α) α) :=
+  match name with
+  | "l1" => some mL1
+  | "l2" => some mL2
+  | "linf" => some mLinf
+  | "lp" => some (mLp p)
+  | _ => none
+
+def sortNat (l : List Nat) : List Nat := l.mergeSort (fun a b => decide (a ≤ b))
+
+abbrev Script := List (Nat × List Nat × List Nat)
+
+def parseScript (s : String) : Option Script := do
+  let l3 ← parseList3 parseNat s
+  l3.mapM fun e => match e with
+    | [[c], l, r] => some (c, l, r)
+    | _ => none
+
+/-- the `split` parameter of `build`, read off the real tree: looked up by member set -/
+def scriptSplit (script : Script) (pts : List (Pt (List α))) :
+    Option (List (Pt (List α)) × List α × List (Pt (List α))) :=
+  let key := sortNat (pts.map (·.2))
+  match script.find? (fun e => sortNat (e.2.1 ++ e.2.2) == key) with
+  | none => none
+  | some (c, l, r) => do
+    let look := fun (i : Nat) => pts.find? (fun p => p.2 == i)
+    let a ← l.mapM look
+    let b ← r.mapM look
+    let cp ← look c
+    some (a, cp.1, b)
+
+def eqS (a b : α) : Bool := !decide (a < b) && !decide (b < a)
+
+/-- specification of `partition` (balltree.rs): dimension of maximal range (`max_by_key` keeps the
+last maximum), median = element `len/2` of the sorted coordinates, left = points strictly below
+the median, or one arbitrary point if there is none. -/
+def splitOk (pts a : List (Pt (List α))) (c : List α) (b : List (Pt (List α))) : Bool :=
+  match pts with
+  | [] => false
+  | p0 :: _ =>
+    let dims := List.range p0.1.length
+    let col : Nat → List α := fun (j : Nat) => pts.map fun p => p.1.getD j 0
+    let range : Nat → α := fun (j : Nat) =>
+      let (mx, mn) := (col j).foldl (fun (acc : α × α) x =>
+        ((if acc.1 < x then x else acc.1), (if x < acc.2 then x else acc.2))) ((col j).headD 0, (col j).headD 0)
+      mx - mn
+    match dims with
+    | [] => false
+    | d0 :: ds =>
+      let dim := ds.foldl (fun best j => if range j < range best then best else j) d0
+      let sorted := ((col dim).map fun x => (x, ())).foldl (fun acc x => insertAsc x acc) []
+      let med := (sorted.getD (pts.length / 2) (0, ())).1
+      let below := (pts.filter fun p => decide (p.1.getD dim 0 < med)).map (·.2)
+      let memb := sortNat (pts.map (·.2))
+      eqS (c.getD dim 0) med && pts.any (fun p => p.1.length == c.length &&
+          (List.zipWith eqS p.1 c).all id) &&
+        sortNat ((a ++ b).map (·.2)) == memb && !a.isEmpty && !b.isEmpty &&
+        (if below.isEmpty then a.length == 1 else sortNat (a.map (·.2)) == sortNat below)
+
+def allSplitsOk (split : List (Pt (List α)) → Option (List (Pt (List α)) × List α × List (Pt (List α))))
+    (leaf : Nat) : Nat → List (Pt (List α)) → Bool
+  | 0, _ => true
+  | fuel + 1, pts =>
+    if pts.length ≤ leaf then true else
+    match split pts with
+    | none => false
+    | some (a, c, b) => splitOk pts a c b && allSplitsOk split leaf fuel a && allSplitsOk split leaf fuel b
+
+def showTree (sc : Sc α) (approx : Bool) : Ball (List α) α → List String
+  | .leaf c r pts =>
+    let f := fun x => if approx then "~" ++ showF64 (sc.wide x) else sc.shw x
+    [s!"L/{showList f c}/{f r}/{showList toString (pts.map (·.2))}"]
+  | .branch c r l rr =>
+    let f := fun x => if approx then "~" ++ showF64 (sc.wide x) else sc.shw x
+    s!"B/{showList f c}/{f r}/-" :: (showTree sc approx l ++ showTree sc approx rr)
+
+/-- smallest relative gap between two different values among the reduced distances (and the
+radius): decisions of an lp query hang on libm `pow`, a gap below the tolerance is not compared -/
+def marginOf (sc : Sc α) (vals : List α) : Float :=
+  let s := (vals.map fun x => (sc.wide x, ())).foldl (fun acc x => insertAsc x acc) []
+  let v := s.map (·.1)
+  (v.zip (v.drop 1)).foldl (fun m (a, b) =>
+    if a < b then
+      let g := (b - a) / (if b.abs < 1e-300 then 1e-300 else b.abs)
+      if g < m then g else m
+    else m) 1.0
+
+def run (sc : Sc α) (op : String) (toks : List String) : Option String := do
+  let metric ← arg toks "metric"
+  let p ← (arg toks "p").bind sc.parse
+  let m ← metricOf metric p
+  let approx := metric == "lp"
+  let ncols ← argNat toks "ncols"
+  let leaf ← argNat toks "leaf"
+  let pts ← (arg toks "pts").bind (parseList2 sc.parse)
+  let fD := fun (x : α) => if approx then "~" ++ showF64 (sc.wide x) else sc.shw x
+  let script ← (match arg toks "script" with | none => some [] | some s => parseScript s)
+  let split := scriptSplit (α := α) script
+  match buildCheck ncols leaf with
+  | .error .emptyLeaf => some "err EmptyLeaf"
+  | .error .zeroDimension => some "err ZeroDimension"
+  | .ok () =>
+    let stored := enumerate pts
+    if op == "tree" then
+      let ix := ballIndex m vecMean split leaf ncols pts
+      let ok := allSplitsOk split leaf pts.length stored
+      some s!"ok split={if ok then "ok" else "bad"} {"|".intercalate (showTree sc approx ix.tree)}"
+    else do
+      let kind ← arg toks "kind"
+      let q ← (arg toks "q").bind (parseList sc.parse)
+      let qdim := q.length
+      let margin := fun (extra : List α) =>
+        if approx then s!" margin=~{showF64 (marginOf sc (extra ++ stored.map fun x => m.rdist q x.1))}" else ""
+      if op == "knn" then
+        let k ← argNat toks "k"
+        let res ← (match kind with
+          | "linear" => some (linearKnnQ m ncols qdim q k stored)
+          | "kd" => some (kdKnnQ m ncols qdim q k stored)
+          | "ball" => some (ballKnnQ m (ballIndex m vecMean split leaf ncols pts) qdim q k)
+          | _ => none)
+        match res with
+        | .error .wrongDimension => some "err WrongDimension"
+        | .ok out =>
+          let ds := out.map fun x => m.rdist q x.1
+          let strict := match ds.getLast? with
+            | none => []
+            | some last => sortNat ((stored.filter fun x => decide (m.rdist q x.1 < last)).map (·.2))
+          some s!"ok n={out.length} d={showList fD ds} strict={showList toString strict}{margin []}"
+      else if op == "range" then
+        let r ← (arg toks "r").bind sc.parse
+        let res ← (match kind with
+          | "linear" => some (linearRangeQ m ncols qdim q r stored)
+          | "kd" => some (kdRangeQ m ncols qdim q r stored)
+          | "ball" => some (ballRangeQ m (ballIndex m vecMean split leaf ncols pts) qdim q r)
+          | _ => none)
+        match res with
+        | .error .wrongDimension => some "err WrongDimension"
+        | .ok out => some s!"ok pos={showList toString (sortNat (out.map (·.2)))}{margin [m.toR r]}"
+      else none
+end
+
+def handle (toks : List String) : String :=
+  let r := match toks with
+    | op :: rest =>
+      if op == "knn" || op == "range" || op == "tree" then
+        match arg rest "ty" with
+        | some "f64" => run scF64 op rest
+        | some "f32" => run scF32 op rest
+        | _ => none
+      else none
+    | _ => none
+  r.getD "bad-op"
 
 end LinfaSpec.Drv.C07
